@@ -1,7 +1,9 @@
-"""C09 (one clause): reads past the end are refused - every public indexed accessor compares the index
-with the logical length before any unchecked access. Width/strategy/delta arithmetic is NOT decided."""
+"""C09 (two clauses): reads past the end are refused - every public indexed accessor compares the index
+with the logical length before any unchecked access; chunked scans of the values do not drop their tail
+(R-REMAINDER). Width/strategy/delta arithmetic is NOT decided."""
 from vlib import fixtures
 from props import _refusal_common as rc
+from rules import remainder
 
 FILES = ['src/containers/specialized/int_vec.rs', 'src/containers/specialized/int_vec/int_vec_simd.rs',
          'src/containers/specialized/uint_vector.rs', 'src/containers/uint_vec_min0.rs', 'src/containers/zip_int_vec.rs',
@@ -10,17 +12,20 @@ FILES = ['src/containers/specialized/int_vec.rs', 'src/containers/specialized/in
 
 def run(ctx):
     fx = ctx.facts("default")
-    fixtures.run(ctx, ['taint'])
+    fixtures.run(ctx, ['taint', 'remainder'])
+    # every stored value is looked at: chunks_exact tails are handled
+    remainder.run(ctx, fx, FILES)
+    ctx.floor('R-REMAINDER.sites', 1)
     rc.accessors(ctx, fx, FILES, r'^(get|get2|get_block|set|get_unchecked_checked|at)$', "R-GUARD.refusal")
     ctx.floor("R-GUARD.refusal.accessors", 6)
     rc.unsafe_sinks(ctx, fx, FILES, "R-GUARD")
     ctx.floor("R-GUARD.entries", 10)
     return dict(
-        level_note="decides ONLY the refusal clause of C09. Bit-width computation, strategy thresholds, delta/base arithmetic, "
+        level_note="decides the refusal clause of C09 and that no chunks_exact scan in the C09 files ignores its remainder. Bit-width computation, strategy thresholds, delta/base arithmetic, "
                    "the 64-bit width edge and padding for the trailing unaligned load are value-level and NOT decided.",
         explanation="refusal form of R-GUARD over the indexed accessors of the compressed integer containers: the index parameter "
                     "is compared with the logical length (None / Err / assert panic edge) before any successful return or "
                     "unchecked access that depends on it.",
-        trusted_base=["rustc nightly MIR", "zfacts", "rules/refusal.py", "rules/taint.py"],
+        trusted_base=["rustc nightly MIR", "zfacts", "rules/refusal.py", "rules/taint.py", "rules/remainder.py"],
         rule_text="obligation = (accessor, index parameter) | unchecked sink with a parameter-derived operand",
     )
